@@ -189,6 +189,19 @@ func runC15(ctx *runCtx) {
 			}
 		}
 	}()
+	// Ping returns once its context ends also when its frame cannot be written: the peer does not drain the transport, or a
+	// data write is stuck in it and holds the frame lock
+	for _, client := range []bool{true, false} {
+		for _, behind := range []bool{false, true} {
+			client, behind := client, behind
+			sh, w := guarded(30*time.Second, func() (string, string) { return pingUnwritable(client, behind) })
+			rep.eval(fmt.Sprintf("ping-unwritable/%v/%v", client, behind))
+			rep.count("ping-unwritable")
+			if sh != "" {
+				rep.violate(Violation{Kind: "property", Shape: sh, What: w, Replay: map[string]interface{}{"scenario": "ping-unwritable", "client": client, "behind_stuck_write": behind}})
+			}
+		}
+	}
 	rng := newRng(ctx.seed, "c15")
 	// receive side
 	var cases []*ReadCase
@@ -456,6 +469,40 @@ func pingAfterIdle(client bool, insideMessage bool) (string, string) {
 	defer wcancel()
 	if err := c.Write(wctx, websocket.MessageText, []byte("still here")); err != nil {
 		return "ping-not-answered", fmt.Sprintf("%s: the connection is unusable after a Ping that followed 5.3 s of silence: %v", desc, err)
+	}
+	return "", ""
+}
+
+// pingUnwritable: the ping frame cannot leave — the transport accepts nothing (optionally a 64 KiB Write is already stuck in it,
+// holding the frame lock) — and the Ping's context ends after 150 ms: the call must come back with an error soon after.
+func pingUnwritable(client, behindStuckWrite bool) (string, string) {
+	a, b := newPipe()
+	a.blockWrites = true
+	c := websocket.VerifNewConn(a, client, websocket.VerifCopts{}, 0)
+	defer b.Close()
+	defer c.CloseNow()
+	bg, cancel := context.WithTimeout(context.Background(), 20*time.Second)
+	defer cancel()
+	c.CloseRead(bg)
+	if behindStuckWrite {
+		go c.Write(bg, websocket.MessageBinary, make([]byte, 1<<16))
+		time.Sleep(40 * time.Millisecond)
+	}
+	pctx, pc := context.WithTimeout(bg, 150*time.Millisecond)
+	defer pc()
+	t0 := time.Now()
+	done := make(chan error, 1)
+	go func() { done <- c.Ping(pctx) }()
+	select {
+	case err := <-done:
+		if err == nil {
+			return "ping-succeeds-without-pong", fmt.Sprintf("client=%v: Ping returned nil although its frame could not even be written", client)
+		}
+		if d := time.Since(t0); d > 2*time.Second {
+			return "ping-outlives-its-context", fmt.Sprintf("client=%v behind-stuck-write=%v: Ping under a 150 ms context returned after %v (%v)", client, behindStuckWrite, d, err)
+		}
+	case <-time.After(4 * time.Second):
+		return "ping-outlives-its-context", fmt.Sprintf("client=%v behind-stuck-write=%v: Ping under a 150 ms context had not returned after 4 s (its frame cannot be written: the peer does not read)", client, behindStuckWrite)
 	}
 	return "", ""
 }
